@@ -42,9 +42,36 @@ def check(ctx: Ctx) -> list[RuleResult]:
                 callers.append(f)
     for f in callers:
         bracket_rule(ctx, r1, f, method_call("_pause"), method_call("_resume"), pol, "engine left paused")
+    def _bracketing_cm(g) -> bool:
+        """a @contextmanager generator: _pause() before the try, its only yield inside the try body, _resume() in the finally"""
+        if not any("contextmanager" in d for d in g.decorators):
+            return False
+        trys = [t for t in own_nodes(g.node) if isinstance(t, ast.Try) and t.finalbody]
+        yields = [y for y in own_nodes(g.node) if isinstance(y, (ast.Yield, ast.YieldFrom))]
+        for t in trys:
+            in_body = {id(x) for b in t.body for x in ast.walk(b)}
+            if len(yields) == 1 and id(yields[0]) in in_body and any(method_call("_resume")(c) for fb in t.finalbody for c in ast.walk(fb) if isinstance(c, ast.Call)):
+                before = [st for st in g.node.body if getattr(st, "lineno", 0) < t.lineno]
+                if any(method_call("_pause")(c) for st in before for c in ast.walk(st) if isinstance(c, ast.Call)) and not any(isinstance(x, (ast.Await, ast.Yield)) for st in before for x in ast.walk(st)):
+                    return True
+        return False
+
     for need in ("ramses_rf.gateway.Gateway.get_state", "ramses_rf.gateway.Gateway._restore_cached_packets"):
-        if repo.func(need) not in callers:
-            raise AnalysisError(f"{need} no longer calls _pause(): the bracket anchor moved")
+        nf = repo.func(need)
+        if nf in callers:
+            continue
+        # the bracket may have been packaged as a context manager: `with self.<cm>():` around the work
+        via = None
+        for cs in ctx.cg.calls_in(nf):
+            par = getattr(cs.node, "parent", None)
+            if isinstance(par, ast.withitem) and any(c in callers and _bracketing_cm(c) for c in cs.callees):
+                via = next(c for c in cs.callees if c in callers and _bracketing_cm(c))
+        r1.instances += 1
+        r1.nontrivial += 1
+        if via is not None:
+            r1.ok({"function": nf.short, "bracket": f"with {via.short}(): _pause() / try: yield / finally: _resume()"})
+        else:
+            raise AnalysisError(f"{need} no longer calls _pause() (directly or through a bracketing context manager): the bracket anchor moved")
     out.append(r1)
 
     # ---- R2 ---------------------------------------------------------------------------
